@@ -334,6 +334,8 @@ fn gen_msg(r: &mut Rng, p: &Pools, m: &Model, c: usize, mix: Mix) -> Message {
 }
 
 struct Hist {
+    /// the operation being injected (written to the trace if the implementation panics in it)
+    pending: String,
     out: String,
     kinds: BTreeMap<String, u64>,
     steps: u64,
@@ -417,6 +419,7 @@ fn run_history(seed: u64, len: usize, mix: Mix, h: &mut Hist) -> Result<(), Stri
         }
         let c = *r.pick(&alive);
         let roll = r.below(400);
+        h.pending = format!("SHUT {}", c);
         if roll < 2 {
             // disconnect by dropping the client's transport
             w.clients[c] = None;
@@ -448,6 +451,7 @@ fn run_history(seed: u64, len: usize, mix: Mix, h: &mut Hist) -> Result<(), Stri
             let msg = gen_msg(&mut r, &p, &m, c, mix);
             let text = fmt_msg(&msg, &mut ids);
             *h.kinds.entry(format!("in:{}", kind_of(&text))).or_default() += 1;
+            h.pending = format!("MSG {} 0 - {}", c, text);
             send(w.clients[c].as_mut().unwrap(), msg.clone());
             for _ in 0..4 {
                 poll(&mut w.tasks[c]);
@@ -504,6 +508,7 @@ fn run_history(seed: u64, len: usize, mix: Mix, h: &mut Hist) -> Result<(), Stri
             let msg = gen_msg(&mut r, &p, &m, c, mix);
             let text = fmt_msg(&msg, &mut ids);
             *h.kinds.entry(format!("in:{}", kind_of(&text))).or_default() += 1;
+            h.pending = format!("MSG {} 0 - {}", c, text);
             if !send(w.clients[c].as_mut().unwrap(), msg.clone()) {
                 return Err(format!("step {step}: could not send on live client {c}"));
             }
@@ -632,7 +637,7 @@ fn main() {
     let mut panics = 0u64;
     for i in 0..n {
         let hs = seed.wrapping_mul(1_000_003).wrapping_add(i);
-        let mut h = Hist { out: String::new(), kinds: BTreeMap::new(), steps: 0 };
+        let mut h = Hist { pending: String::new(), out: String::new(), kinds: BTreeMap::new(), steps: 0 };
         let res = catch_unwind(AssertUnwindSafe(|| run_history(hs, len, mix, &mut h)));
         f.write_all(h.out.as_bytes()).unwrap();
         match res {
@@ -640,6 +645,7 @@ fn main() {
             Ok(Err(e)) => writeln!(f, "HARNESS-ERROR {}", e).unwrap(),
             Err(p) => {
                 panics += 1;
+                writeln!(f, "EVP {}", h.pending).unwrap();
                 let msg = p.downcast_ref::<String>().cloned().or_else(|| p.downcast_ref::<&str>().map(|s| s.to_string())).unwrap_or_default();
                 writeln!(f, "PANIC {}", msg.replace('\n', " ")).unwrap();
             }
